@@ -237,9 +237,13 @@ Quiescent ==
         /\ FiresAtEnd
     /\ X.parked =>
         \* (event loop parked by the scenario: accepted messages back up in sendMsg; only the two-sided bound holds)
-        /\ IF Card(Holders(N)) <= X.g /\ X.g <= Card(Pending) /\ X.g <= cfg.gthr THEN TRUE
-           ELSE Report("P_X10c_Conserve", "*", "tokens of the global throttle in use outside what the pending messages allow (event loop parked)",
-                       [kind |-> "global-parked", a |-> X.g, b |-> Card(Pending)])
+        \* messages whose validators have all returned wait for the hand-off: sendMsg buffers cfg.sendCap of them, the others
+        \* are goroutines blocked in sendMsgBlocking that still hold their token
+        /\ LET waiting == {m \in Pending : HasAsync(m) /\ ~\E j \in OpenRemote(N) : E[j].m = m} IN
+           IF /\ Card(Holders(N)) + (IF Card(waiting) > cfg.sendCap THEN Card(waiting) - cfg.sendCap ELSE 0) <= X.g
+              /\ X.g <= Card(Pending) /\ X.g <= cfg.gthr /\ X.jobs = X.g THEN TRUE
+           ELSE Report("P_X10c_Conserve", "*", "tokens of the global throttle in use / validation goroutines alive outside what the pending messages allow (event loop parked)",
+                       [kind |-> "global-parked", a |-> <<X.g, X.jobs>>, b |-> <<Card(Holders(N)), Card(waiting), Card(Pending)>>])
 
 \* a penalty counter may move only in a step in which a rejection ('validation failed') or a duplicate was traced
 PenOf(P, p) == LET S == {x \in Range(P) : x.p = p} IN IF S = {} THEN 0 ELSE (CHOOSE x \in S : TRUE).n
@@ -290,12 +294,14 @@ Account(m) ==
     /\ IF nArr = nDup + nQ + nVal /\ odd = 0 THEN TRUE
        ELSE Report("P_X10d_Account", m, "copies that arrived are not each accounted for by exactly one of duplicate / queue full / entered validation",
                    [arr |-> nArr, dup |-> nDup, qfull |-> nQ, val |-> nVal, fin |-> nFin, odd |-> odd])
-    /\ IF nVal <= 1 /\ nFin = nVal /\ nDl = nDlv THEN TRUE
+    \* (a Subscription whose 32-slot buffer is full loses deliveries by design - "subscriber too slow" -: nDl <= nDlv only)
+    /\ IF nVal <= 1 /\ nFin = nVal /\ nDl <= nDlv THEN TRUE
        ELSE Report("P_X10d_Account", m, "a message that entered validation does not end in exactly one outcome (or entered twice, or Deliver without delivery)",
                    [arr |-> nArr, dup |-> nDup, qfull |-> nQ, val |-> nVal, fin |-> nFin, odd |-> nDl - nDlv])
     \* queue-full copies leave no mark in the seen cache; throttled ones do (the id was marked before the throttle was tried)
     /\ \A i \in {j \in 1..N : E[j].k = "Dup" /\ E[j].m = m} :
-         IF \E j \in ValIdx(m) : j < i THEN TRUE
+         \* (two workers may trace Duplicate / Validate of two copies in either order inside one step)
+         IF \E j \in ValIdx(m) : j < i \/ E[j].s = E[i].s THEN TRUE
          ELSE Report("P_X10d_Seen", m, "a copy was dropped as duplicate although the message had never entered validation (a queue-full drop must not mark the id seen)",
                      [arr |-> nArr, dup |-> nDup, qfull |-> nQ, val |-> nVal, fin |-> nFin, odd |-> 0])
     /\ IF nVal = 1 /\ nFin = 1 => ObsFinals(m) = {Prescribed(m)} THEN TRUE
@@ -332,7 +338,7 @@ OptLine(o) ==
 
 -----------------------------------------------------------------------------
 TInit == /\ TLCSet(1, 0) /\ l = 1 /\ scn = -1
-         /\ cfg = [qcap |-> 1, nw |-> 1, gthr |-> 1, nv |-> 0, vals |-> <<>>]
+         /\ cfg = [qcap |-> 1, nw |-> 1, gthr |-> 1, nv |-> 0, sendCap |-> 32, vals |-> <<>>]
          /\ E = <<>> /\ cur = 0 /\ regs = <<>> /\ q0 = 0 /\ qocc = 0 /\ unb = {} /\ pen0 = <<>> /\ dead = FALSE
 
 TReset ==
